@@ -282,6 +282,7 @@ _freeze_native = rt.untraced(_freeze)
 FRAME_SCHEMAS = ["rec_flat", "rec_defaults2", "union_named_mix", "pair_array_record", "pair_map_union", "ref_after_def",
                  "ns_inherit", "rec_list", "enum", "fixed", "prim_long", "union_two_recs"]
 FRAME_QUICK = ["rec_flat", "rec_defaults2", "union_named_mix", "pair_array_record", "ref_after_def", "rec_list", "enum"]
+FRAME_KINDS = [7, 0, shape.DELETE, 13]  # mutants used to make calls fail: wrong type, None, missing field, non-string map key
 FRAME_OPS = ["write", "roundtrip", "validate", "validate_raise", "container", "json", "parse_pcf"]
 
 
@@ -317,8 +318,11 @@ def ob_frame_sym(c, opi, v, pos, kind, parsed):
     opn = pick(FRAME_OPS, opi)
     if opn is None:
         return True, "out of domain"
+    kk = pick(FRAME_KINDS, kind) if pos >= 0 else 0
+    if kk is None:
+        return True, "out of domain"
     try:
-        d = l10._datum(c, v, pos, kind)
+        d = l10._datum(c, v, pos, kk)
     except OutOfDomain:
         return True, "out of domain"
     sch = c["parsed"] if parsed else c["schema"]
@@ -387,7 +391,7 @@ def harnesses(tier, seed):
             hs.append(Harness(f"frame.{opn}.{name}", "props.l17", f"v: {a}, pos: int, kind: int, parsed: bool", call + "[0]",
                               replay_call=call, setup=f"C = fcase({name!r}, {th})",
                               what=f"frame obligation of {opn} on {name}",
-                              samples=[(sv[0], -1, 0, True), (sv[-1], 0, 7, False)], key=f"frame:{opn}:{name}"))
+                              samples=[(sv[0], -1, 0, True), (sv[-1], 0, 0, False)], key=f"frame:{opn}:{name}"))
     return hs
 
 
